@@ -85,7 +85,7 @@ def integrand (T : Bessel.Table α) (small : α) (N l1 l2 : Nat) (n a b A B aA b
 /-- `integrate_small(N, l1, l2, n, a, b, A, B)` → (value, converged); also returns the cut index (first zeroed node)
 for the attribution of deviations -/
 def integrateSmall (prim : Quad.Grid α) (T : Bessel.Table α) (small tol : α) (N l1 l2 : Nat) (n a b A B : α)
-    (useCut : Bool := true) : α × Bool × Nat := Id.run do
+    (useCut : Bool := true) (finest : Bool := false) : α × Bool × Nat × Nat := Id.run do
   let zt := n + a + b
   let pt := (a * A + b * B) / zt
   let g := Quad.transformRMinMax prim zt pt
@@ -105,8 +105,13 @@ def integrateSmall (prim : Quad.Grid α) (T : Bessel.Table α) (small tol : α) 
     i := i + 1
   let cut := i
   -- entries from `cut` on stay zero
-  let r := Quad.integrate g (fun ix => F[ix]!) (Flt.ofRat 1 1000000000000) 0 (size - 1)
-  return (r.1, r.2, cut)
+  -- `finest = true` (attribution only): tolerance 0, i.e. the nested sequence is never accepted early
+  let r := Quad.integrate g (fun ix => F[ix]!) (if finest then 0 else Flt.ofRat 1 1000000000000) 0 (size - 1)
+  -- index of the largest tabulated value (trace information only)
+  let mut am := 0
+  for j in [0:size] do
+    if F[am]! < F[j]! then am := j
+  return (r.1, r.2, cut, am)
 
 /-- `estimate_type2(N, l1, l2, n, a, b, A, B)`; `erfv` is `std::erf(√p·P)` supplied from outside -/
 def estimateType2 (T : Bessel.Table α) (N l1 l2 : Nat) (n a b A B erfv : α) : α :=
@@ -170,7 +175,7 @@ def primitive (prim : Quad.Grid α) (T : Bessel.Table α) (small tol minExp root
   let viaQuad : α × Path × Nat :=
     if tol < estimateType2 T k l1 l2 ua a b A B erfv then
       let r := integrateSmall prim T small tol k l1 l2 ua a b A B
-      (r.1, .quad, r.2.2)
+      (r.1, .quad, r.2.2.1)
     else (0, .screened, 0)
   if minExp < a * b then
     match Gen.radialCase ijk p x y x2 y2 p2 (fun i => vals[i]!) G1A G1B H2 with
